@@ -510,3 +510,33 @@ def rule_rank_space(ctx: Ctx) -> None:
             ctx.violate('RANK-SPACE', f, norm(n), f'{norm(n)}: {norm(grp[0])} is a rank relative to the group, {norm(other)} is a global rank (as passed to dist.broadcast / returned by the assignment); '
                         'in a subgroup that does not start at rank 0 they differ', n)
     ctx.ok('RANK-SPACE', 'kfac', f'{n_ok} comparisons of get_rank() with a root use the global rank', None)
+
+
+def rule_contig(ctx: Ctx) -> None:
+    """DOM-CONTIG: the collectives operate on raw storage, so what the communicator hands to dist.all_reduce /
+    dist.broadcast is a row-major dense copy: the last binding of the argument before the call is `<x>.contiguous()`
+    (or a flatten of tensors) — not `.clone()`, which preserves a column-major layout such as eigh's eigenvectors."""
+    p = ctx.prog
+    ctx.rule('DOM-CONTIG', 'tensors handed to dist.all_reduce / dist.broadcast are made contiguous (row-major) first', floor=3)
+    for fq in (f'{TDC}.allreduce', f'{TDC}.broadcast', f'{BKT}.allreduce'):
+        f = p.get_func(fq)
+        calls = [c for c in p.calls_in(f) if norm(c.func) in ('dist.all_reduce', 'dist.broadcast', 'torch.distributed.all_reduce', 'torch.distributed.broadcast')]
+        if not calls:
+            raise AnalysisIncomplete(f'{fq}: no dist.all_reduce / dist.broadcast call found')
+        for c in calls:
+            a0 = c.args[0] if c.args else next((k.value for k in c.keywords if k.arg == 'tensor'), None)
+            ok = False
+            why = norm(a0) if a0 is not None else None
+            if isinstance(a0, ast.Name):
+                defs = [n for n in p.nodes(f) if isinstance(n, ast.Assign) and len(n.targets) == 1 and isinstance(n.targets[0], ast.Name) and n.targets[0].id == a0.id and n.lineno < c.lineno]
+                if defs:
+                    last = max(defs, key=lambda n: n.lineno)
+                    v = last.value
+                    why = norm(v)
+                    ok = (isinstance(v, ast.Call) and isinstance(v.func, ast.Attribute) and v.func.attr == 'contiguous' and not v.args and not v.keywords) or \
+                         (isinstance(v, ast.Call) and norm(v.func).split('.')[-1] in ('flatten', '_flatten_dense_tensors'))
+            elif isinstance(a0, ast.Call) and isinstance(a0.func, ast.Attribute) and a0.func.attr == 'contiguous':
+                ok = True
+            ctx.check(ok, 'DOM-CONTIG', f, f'{f.name}: {norm(c.func)} on a contiguous copy', f'{f.name} {norm(c.func)}',
+                      f'{f.short}: {norm(c.func)} is given {why}; the collective sends raw storage, so a tensor that is not row-major '
+                      '(e.g. the column-major eigenvectors returned by eigh) arrives transposed on the other ranks', c)
